@@ -119,16 +119,43 @@ def _probe():
                     a, b = fresh[sname].get(k, "<absent>"), r.snap.get(k, "<absent>")
                     if a != b:
                         rows.append((dname, sname, k, a, b))
+        # the inert leftovers, behaviourally: a second run that is KILLED by its timeout (the kill path reads
+        # pid / process / status) must come out the same on a reused object as on a fresh one
+        import time
+
+        def overrun(r, pty):
+            t0 = time.time()
+            try:
+                r.run("sleep 5", timeout=0.3, pty=pty, **quiet)
+                return "returned"
+            except CommandTimedOut as e:
+                dt = time.time() - t0
+                return "CommandTimedOut(exited=%r, within 3s=%r)" % (e.result.exited, dt < 3.0)
+            except Exception as e:  # noqa
+                return type(e).__name__
+
+        outcomes = []
+        for sname, pty in (("plain", False), ("pty", True)):
+            want = overrun(Probe(Context(Config())), pty)
+            for dname, f in dirty:
+                if dname not in ("normal", "timed_out", "pty", "pty_failed", "pty_timed_out", "async_joined"):
+                    continue
+                r = Probe(Context(Config()))
+                try:
+                    f(r)
+                except (Failure, CommandTimedOut, ThreadException):
+                    pass
+                outcomes.append((dname, sname, want, overrun(r, pty)))
     finally:
         sys.stdout, sys.stderr = old
         null.close()
         os.close(master)
-    return [d for d, _ in dirty], sorted(fresh["plain"]), dirtied, rows
+    return [d for d, _ in dirty], sorted(fresh["plain"]), dirtied, rows, outcomes
 
 
 @area("RunnerState")
 def runner_state_area():
-    dirty, attrs, dirtied, rows = _probe()
+    dirty, attrs, dirtied, rows, outcomes = _probe()
     L = []
     L.append("/-- the state-dirtying first runs driven through the real `Local` -/")
     L.append("def dirtyScenarios : List String :=\n  " + lean_list(dirty))
@@ -144,4 +171,9 @@ def runner_state_area():
              "moment the second run's workers are about to start, wherever the two differ -/")
     L.append("def carriedOver : List (String × String × String × String × String) :=\n  ["
              + ",\n   ".join("(%s)" % ", ".join(lean_str(x) for x in row) for row in rows) + "]")
+    L.append("")
+    L.append("/-- (first run, kind of second run, outcome on a fresh object, outcome on the reused object) of a second run that\n"
+             "overruns its timeout of 0.3 s: the kill path is where `pid` / `process` / `status` are read -/")
+    L.append("def overrunOutcomes : List (String × String × String × String) :=\n  ["
+             + ",\n   ".join("(%s)" % ", ".join(lean_str(x) for x in row) for row in outcomes) + "]")
     return "\n".join(L)
